@@ -31,6 +31,14 @@ def cells(tier):
         out.append(cell(f"s{size} A1|cgroupA,B1 named like A's generated name,C1,M1", sc, MON))
         sc = scen(pool(size), [[A("A", 3)], [A("B", 2)], [cgroup("A"), A("C", 2)]], outcomes=["ret"])
         out.append(cell(f"s{size} A3|B2|cgroupA,C2 (cancelled waiting spawner)", sc, MON))
+    # requests that never start a task (empty iterable, num=0, every call site raises, start(0)) stay live groups across
+    # a flush(): their names stay known (empty set) and are not generated again
+    sc = scen(pool(2), [[M("E", 0, 1), A("Z", 0), FLUSH, M("F", 1, 1), A("Y", 1)]], outcomes=["ret"])
+    out.append(cell("s2 M0/1,A0,flush,M1/1,A1 (empty groups)", sc, MON))
+    sc = scen(pool(2), [[M("E", 2, 1, bad=[0, 1]), A("Z", 1, fault=[0])], [FLUSH, M("F", 1, 1), A("Y", 1)]], outcomes=["ret"])
+    out.append(cell("s2 M2/1 allbad,A1 fault0|flush,M1/1,A1 (empty groups)", sc, MON))
+    sc = scen(pool(2, "SimpleTaskPool"), [[S("S", 0), FLUSH, S("T", 1)]], outcomes=["ret"])
+    out.append(cell("simple s2 S0,flush,T1 (empty groups)", sc, MON))
     for size in [1, 2]:
         # overlapping start() requests whose spawners wait for room in turn
         sc = scen(pool(size, "SimpleTaskPool"), [[S("S", 3)], [S("T", 1)]], outcomes=["ret"])
